@@ -3,39 +3,163 @@ From Coq Require Import List Bool Arith String Ascii Lia Permutation.
 From Ropt Require Import Model.Registry.
 Import ListNotations.
 
-Section Proofs.
-  Variable init : registry.
-  Notation step := (step init).
-  Notation run := (run init).
-  Notation get := (get init).
-  Notation first_disc := (first_disc init).
-  Notation supports := (supports init).
+(* ---- lower-casing ------------------------------------------------------------------ *)
+Lemma lower_ascii_idem c : lower_ascii (lower_ascii c) = lower_ascii c.
+Proof.
+  destruct c as [b0 b1 b2 b3 b4 b5 b6 b7].
+  destruct b0, b1, b2, b3, b4, b5, b6, b7; reflexivity.
+Qed.
+Lemma lower_idem s : lower (lower s) = lower s.
+Proof. induction s as [|c t IH]; cbn; [reflexivity|]. rewrite lower_ascii_idem, IH. reflexivity. Qed.
 
-  (* ---- names -------------------------------------------------------------------- *)
-  Lemma find_name_none r n : find_name r n = None <-> ~ In n (names r).
+(* ---- the dict ---------------------------------------------------------------------- *)
+Lemma find_name_none r n : find_name r n = None <-> ~ In n (names r).
+Proof.
+  induction r as [|[k v] t IH]; cbn; [tauto|].
+  destruct (String.eqb_spec k n) as [->|Hne].
+  - split; [discriminate | intros H; exfalso; apply H; auto].
+  - rewrite IH. split; [intros H [E|E]; [congruence|auto] | intros H E; apply H; auto].
+Qed.
+
+Lemma find_name_some r n p : find_name r n = Some p -> In (n, p) r.
+Proof.
+  induction r as [|[k v] t IH]; cbn; [discriminate|].
+  destruct (String.eqb_spec k n) as [->|Hne]; [intros H; injection H as ->; auto | auto].
+Qed.
+
+Lemma find_name_in r n p : NoDup (names r) -> In (n, p) r -> find_name r n = Some p.
+Proof.
+  induction r as [|[k v] t IH]; cbn; [tauto|].
+  intros Hnd [E|E].
+  - injection E as -> ->. rewrite String.eqb_refl. reflexivity.
+  - inversion Hnd as [|? ? Hk Ht]; subst. destruct (String.eqb_spec k n) as [->|Hne].
+    + exfalso. apply Hk. apply (in_map fst) in E. exact E.
+    + apply IH; assumption.
+Qed.
+
+Lemma dmem_iff r n : dmem r n = true <-> In n (names r).
+Proof.
+  unfold dmem. destruct (find_name r n) eqn:E.
+  - split; [intros _|reflexivity]. apply find_name_some in E. apply (in_map fst) in E. exact E.
+  - split; [discriminate|]. intros H. apply find_name_none in E. contradiction.
+Qed.
+
+Lemma dset_fresh d k v : ~ In k (names d) -> dset d k v = d ++ [(k, v)].
+Proof.
+  induction d as [|[k' v'] t IH]; cbn; [reflexivity|].
+  intros H. destruct (String.eqb_spec k' k) as [->|Hne]; [exfalso; apply H; auto|].
+  rewrite IH; [reflexivity|]. intros E; apply H; auto.
+Qed.
+
+Lemma dset_names d k v : In k (names d) -> names (dset d k v) = names d.
+Proof.
+  induction d as [|[k' v'] t IH]; cbn; [tauto|].
+  intros H. destruct (String.eqb_spec k' k) as [->|Hne]; cbn; [reflexivity|].
+  f_equal. apply IH. destruct H; [congruence|assumption].
+Qed.
+
+Lemma fold_dset_fresh d : forall acc, NoDup (names acc ++ names d) ->
+  fold_left (fun a kv => dset a (fst kv) (snd kv)) d acc = acc ++ d.
+Proof.
+  induction d as [|[k v] t IH]; intros acc H; cbn [fold_left fst snd].
+  - rewrite app_nil_r. reflexivity.
+  - cbn in H. pose proof (NoDup_remove_2 _ _ _ H) as Hk.
+    rewrite dset_fresh by (intros E; apply Hk; apply in_or_app; left; exact E).
+    rewrite IH.
+    + rewrite <- app_assoc. reflexivity.
+    + unfold names. rewrite map_app. cbn. rewrite <- app_assoc. cbn. exact H.
+Qed.
+
+Lemma dupdate_single_fresh d k v : NoDup (names d) -> ~ In k (names d) -> dupdate [(k, v)] d = (k, v) :: d.
+Proof.
+  intros Hd Hk. unfold dupdate. rewrite fold_dset_fresh; [reflexivity|].
+  cbn. constructor; assumption.
+Qed.
+
+Arguments sup1 : simpl never.
+
+Section Proofs.
+  Variable oinit : registry.
+  Notation step := (step oinit).
+  Notation run := (run oinit).
+  Notation get := (get oinit).
+  Notation first_disc := (first_disc oinit).
+  Notation supports := (supports oinit).
+  Notation sup1 := (sup1 oinit).
+  Notation mstep := (mstep oinit).
+  Notation mrun := (mrun oinit).
+  Notation ustep := (ustep oinit).
+  Notation urun := (urun oinit).
+
+  (* ---- add_plugin ------------------------------------------------------------------- *)
+  (* duplicates are rejected whatever the casing and whatever `prioritize` says; state unchanged *)
+  Lemma add_duplicate_rejected r n p prio :
+    In (lower n) (names r) -> step r (Add n p prio) = (r, AErr).
   Proof.
-    induction r as [|[k v] t IH]; cbn; [tauto|].
-    destruct (String.eqb_spec k n) as [->|Hne].
-    - split; [discriminate | intros H; exfalso; apply H; auto].
-    - rewrite IH. split; [intros H [E|E]; [congruence|auto] | intros H E; apply H; auto].
+    intros H. cbn. unfold add. apply dmem_iff in H. rewrite H. reflexivity.
   Qed.
 
-  Lemma find_name_some r n p : find_name r n = Some p -> In (n, p) r.
+  Lemma add_fresh r n p prio : NoDup (names r) -> ~ In (lower n) (names r) ->
+    step r (Add n p prio) = ((if prio then (lower n, p) :: r else r ++ [(lower n, p)]), AOk).
   Proof.
-    induction r as [|[k v] t IH]; cbn; [discriminate|].
-    destruct (String.eqb_spec k n) as [->|Hne]; [intros H; injection H as ->; auto | auto].
+    intros Hnd H. cbn. unfold add. destruct (dmem r (lower n)) eqn:E.
+    - apply dmem_iff in E. contradiction.
+    - destruct prio; [rewrite dupdate_single_fresh by assumption | rewrite dset_fresh by assumption]; reflexivity.
+  Qed.
+
+  Lemma add_case r n n' p prio : lower n = lower n' -> step r (Add n p prio) = step r (Add n' p prio).
+  Proof. intros E. cbn. unfold add. rewrite E. reflexivity. Qed.
+
+  Lemma add_err_iff r n p prio : snd (step r (Add n p prio)) = AErr <-> In (lower n) (names r).
+  Proof.
+    cbn. unfold add. rewrite <- dmem_iff. destruct (dmem r (lower n)); [tauto|].
+    destruct prio; cbn; split; discriminate.
   Qed.
 
   Lemma step_names_nodup r o : NoDup (names r) -> NoDup (names (fst (step r o))).
   Proof.
-    intros H. destruct o as [n p prio|m|m]; cbn; auto.
-    destruct (find_name r (lower n)) eqn:E; cbn; auto.
-    apply find_name_none in E. destruct prio; cbn.
-    - constructor; assumption.
-    - unfold names. rewrite map_app. cbn.
-      apply (Permutation_NoDup (l := lower n :: map fst r)).
-      + apply Permutation_cons_append.
+    intros H. destruct o as [n p prio|m|m| |m]; [|cbn; auto ..].
+    destruct (in_dec string_dec (lower n) (names r)) as [Hin|Hout].
+    - rewrite (add_duplicate_rejected r n p prio Hin). exact H.
+    - rewrite (add_fresh r n p prio H Hout).
+      destruct prio; cbn.
       + constructor; assumption.
+      + unfold names. rewrite map_app. cbn.
+        apply (Permutation_NoDup (l := lower n :: map fst r)).
+        * apply Permutation_cons_append.
+        * constructor; assumption.
+  Qed.
+
+  Lemma step_names_lower r o : Forall (fun k => lower k = k) (names r) ->
+    Forall (fun k => lower k = k) (names (fst (step r o))).
+  Proof.
+    intros H. destruct o as [n p prio|m|m| |m]; cbn; auto.
+    unfold add. destruct (dmem r (lower n)) eqn:E; cbn; [exact H|].
+    assert (Hout : ~ In (lower n) (names r)) by (rewrite <- dmem_iff; congruence).
+    destruct prio; cbn.
+    - unfold dupdate. cbn. clear E.
+      (* {nl: p}.update(r): the keys are nl and those of r *)
+      assert (G : forall d acc, Forall (fun k => lower k = k) (names acc) -> Forall (fun k => lower k = k) (names d) ->
+                  Forall (fun k => lower k = k) (names (fold_left (fun a kv => dset a (fst kv) (snd kv)) d acc))).
+      { clear. induction d as [|[k v] t IH]; intros acc Ha Hd; cbn; [exact Ha|].
+        inversion Hd as [|? ? Hk Ht]; subst. apply IH; [|exact Ht].
+        clear IH Ht Hd. induction acc as [|[k' v'] a IHa]; cbn.
+        - constructor; [exact Hk|constructor].
+        - inversion Ha as [|? ? Hk' Ha']; subst. destruct (String.eqb k' k); cbn; constructor; auto. }
+      apply G; [|exact H]. cbn. constructor; [apply lower_idem|constructor].
+    - rewrite dset_fresh by exact Hout. unfold names. rewrite map_app. apply Forall_app. split; [exact H|].
+      cbn. constructor; [apply lower_idem|constructor].
+  Qed.
+
+  Lemma lookups_pure r o : (forall n p prio, o <> Add n p prio) -> fst (step r o) = r.
+  Proof. destruct o; cbn; auto. intros H. exfalso. eapply H. reflexivity. Qed.
+
+  (* any operation answered with an error (or KeyError) left the registry as it was *)
+  Lemma step_error_noop r o : snd (step r o) = AErr \/ snd (step r o) = ABad -> fst (step r o) = r.
+  Proof.
+    destruct o as [n p prio|m|m| |m]; cbn; auto.
+    unfold add. destruct (dmem r (lower n)); cbn; [reflexivity|].
+    destruct prio; cbn; intros [H|H]; discriminate.
   Qed.
 
   Lemma run_cons r o t : run r (o :: t) = (snd (step r o) :: fst (run (fst (step r o)) t), snd (run (fst (step r o)) t)).
@@ -47,24 +171,12 @@ Section Proofs.
     rewrite run_cons. cbn [snd]. apply IH. apply step_names_nodup. exact H.
   Qed.
 
-  (* duplicates are rejected whatever the casing and whatever `prioritize` says; state unchanged *)
-  Lemma add_duplicate_rejected r n p prio :
-    In (lower n) (names r) -> step r (Add n p prio) = (r, AErr).
+  Lemma run_names_lower ops : forall r, Forall (fun k => lower k = k) (names r) ->
+    Forall (fun k => lower k = k) (names (snd (run r ops))).
   Proof.
-    intros H. cbn. destruct (find_name r (lower n)) eqn:E; [reflexivity|].
-    apply find_name_none in E. contradiction.
+    induction ops as [|o t IH]; intros r H; [exact H|].
+    rewrite run_cons. cbn [snd]. apply IH. apply step_names_lower. exact H.
   Qed.
-
-  Lemma add_fresh r n p prio :
-    ~ In (lower n) (names r) ->
-    step r (Add n p prio) = ((if prio then (lower n, p) :: r else r ++ [(lower n, p)]), AOk).
-  Proof.
-    intros H. cbn. destruct (find_name r (lower n)) eqn:E; [|reflexivity].
-    exfalso. apply H. apply find_name_some in E. apply (in_map fst) in E. exact E.
-  Qed.
-
-  Lemma lookups_pure r o : (forall n p prio, o <> Add n p prio) -> fst (step r o) = r.
-  Proof. destruct o; cbn; auto. intros H. exfalso. eapply H. reflexivity. Qed.
 
   (* ---- lookup order: prioritised most recent first, then init, then the others in order ---- *)
   Fixpoint accepted (seen : list string) (ops : list op) : list (string * plugin * bool) :=
@@ -87,30 +199,35 @@ Section Proofs.
     - intros H. exists n. split; [exact H | apply String.eqb_refl].
   Qed.
 
-  Lemma run_order ops : forall r seen,
+  Lemma run_order ops : forall r seen, NoDup (names r) ->
     (forall n, In n seen <-> In n (names r)) ->
     snd (run r ops) = rev (prio_part (accepted seen ops)) ++ r ++ norm_part (accepted seen ops).
   Proof.
-    induction ops as [|o t IH]; intros r seen Hs.
+    induction ops as [|o t IH]; intros r seen Hnd Hs.
     - cbn. rewrite app_nil_r. reflexivity.
-    - rewrite run_cons. cbn [snd]. destruct o as [n p prio|m|m].
+    - rewrite run_cons. cbn [snd]. destruct o as [n p prio|m|m| |m].
       + cbn [accepted]. destruct (existsb (String.eqb (lower n)) seen) eqn:E.
         * apply existsb_in_names in E. apply Hs in E.
-          rewrite add_duplicate_rejected by exact E. cbn [fst]. apply IH. exact Hs.
+          rewrite add_duplicate_rejected by exact E. cbn [fst]. apply IH; assumption.
         * assert (Hn : ~ In (lower n) (names r)).
           { intros H. apply Hs in H. apply existsb_in_names in H. congruence. }
-          rewrite add_fresh by exact Hn. cbn [fst].
+          pose proof (step_names_nodup r (Add n p prio) Hnd) as Hnd'.
+          rewrite add_fresh in * by assumption. cbn [fst] in *.
           destruct prio.
           -- rewrite (IH ((lower n, p) :: r) (lower n :: seen)).
              ++ unfold prio_part, norm_part. cbn [filter snd negb map fst rev].
                 rewrite <- !app_assoc. reflexivity.
+             ++ exact Hnd'.
              ++ intros x. cbn. rewrite (Hs x). reflexivity.
           -- rewrite (IH (r ++ [(lower n, p)]) (lower n :: seen)).
              ++ unfold prio_part, norm_part. cbn [filter snd negb map fst rev].
                 rewrite <- !app_assoc. reflexivity.
+             ++ exact Hnd'.
              ++ intros x. unfold names. rewrite map_app, in_app_iff. cbn. rewrite (Hs x). unfold names. tauto.
-      + cbn [fst Registry.step accepted]. apply IH. exact Hs.
-      + cbn [fst Registry.step accepted]. apply IH. exact Hs.
+      + cbn [fst Registry.step accepted]. apply IH; assumption.
+      + cbn [fst Registry.step accepted]. apply IH; assumption.
+      + cbn [fst Registry.step accepted]. apply IH; assumption.
+      + cbn [fst Registry.step accepted]. apply IH; assumption.
   Qed.
 
   (* ---- splitting "plugin/method" ------------------------------------------------- *)
@@ -132,11 +249,99 @@ Section Proofs.
     rewrite (IH Hm). reflexivity.
   Qed.
 
-  (* qualified lookup consults only the plug-in registered under lower P *)
+  (* every string is either bare or of the form P/m with P slash-free: the two lookup theorems cover all requests *)
+  Lemma split_slash_cases s :
+    (no_slash s = true /\ split_slash s = (s, None)) \/
+    (exists P m, no_slash P = true /\ s = (P ++ String "/"%char m)%string /\ split_slash s = (P, Some m)).
+  Proof.
+    induction s as [|c s IH]; cbn; [left; auto|].
+    destruct (Ascii.eqb_spec c "/"%char) as [->|Hc].
+    - right. exists EmptyString, s. cbn. auto.
+    - destruct IH as [[Hn Hs]|(P & m & HP & -> & Hs)].
+      + left. rewrite Hn, Hs. cbn. auto.
+      + right. exists (String c P), m. rewrite Hs. cbn. rewrite HP.
+        destruct (Ascii.eqb_spec c "/"%char); [contradiction|]. cbn. auto.
+  Qed.
+
+  Lemma split_slash_length s h t : split_slash s = (h, Some t) -> String.length t < String.length s.
+  Proof.
+    revert h t; induction s as [|c s IH]; cbn; intros h t; [discriminate|].
+    destruct (Ascii.eqb c "/"%char).
+    - intros H; injection H as _ <-. lia.
+    - destruct (split_slash s) as [h' r] eqn:E. intros H; injection H as _ ->.
+      specialize (IH h' t eq_refl). lia.
+  Qed.
+
+  (* ---- fuel: the bound used by the model never cuts the external plug-in's recursion short ---- *)
+  Definition ext_hidden (r : registry) : Prop :=
+    forall n p, In (n, p) r -> kind p = External -> disc p = false.
+
+  Lemma existsb_ext_fuel (l : registry) f1 f2 h :
+    (forall n p, In (n, p) l -> disc p = true -> supports f1 p h = supports f2 p h) ->
+    existsb (fun np => disc (snd np) && supports f1 (snd np) h) l =
+    existsb (fun np => disc (snd np) && supports f2 (snd np) h) l.
+  Proof.
+    induction l as [|[n p] t IH]; intros H; cbn; [reflexivity|].
+    rewrite IH by (intros; eapply H; eauto; right; eauto).
+    destruct (disc p) eqn:D; cbn; [|reflexivity].
+    rewrite (H n p (or_introl eq_refl) D). reflexivity.
+  Qed.
+
+  Lemma supports_fuel : ext_hidden oinit ->
+    forall k m, String.length m < k -> forall p f1 f2, k <= f1 -> k <= f2 -> supports f1 p m = supports f2 p m.
+  Proof.
+    intros Hh. induction k as [|k IH]; intros m Hm p f1 f2 H1 H2; [lia|].
+    destruct f1 as [|f1]; [lia|]. destruct f2 as [|f2]; [lia|].
+    cbn [Registry.supports]. destruct (kind p) eqn:K; try reflexivity.
+    destruct (split_slash m) as [h [t|]] eqn:E.
+    - destruct (find_name oinit (lower h)) as [q|]; [|reflexivity].
+      apply split_slash_length in E. apply IH; lia.
+    - apply existsb_ext_fuel. intros n q Hin Hd.
+      destruct f1 as [|f1], f2 as [|f2]; cbn [Registry.supports];
+        destruct (kind q) eqn:Kq; try reflexivity;
+        pose proof (Hh n q Hin Kq); congruence.
+  Qed.
+
+  Lemma sup1_fuel : ext_hidden oinit -> forall p m f, String.length m < f -> supports f p m = sup1 p m.
+  Proof.
+    intros Hh p m f Hf. unfold Registry.sup1, fuel_of.
+    apply (supports_fuel Hh (S (String.length m))); lia.
+  Qed.
+
+  Lemma supports_nonext p m f f' : kind p <> External -> supports f p m = supports f' p m.
+  Proof. intros K. destruct f, f'; cbn; destruct (kind p); try reflexivity; contradiction. Qed.
+
+  Lemma existsb_first_disc (l : registry) m f :
+    (forall n q, In (n, q) l -> disc q = true -> supports f q m = sup1 q m) ->
+    existsb (fun np => disc (snd np) && supports f (snd np) m) l =
+    match first_disc l m with Some _ => true | None => false end.
+  Proof.
+    induction l as [|[n q] t IH]; intros H; cbn; [reflexivity|].
+    rewrite IH by (intros; eapply H; eauto; right; eauto).
+    destruct (disc q) eqn:D; cbn; [|reflexivity].
+    rewrite (H n q (or_introl eq_refl) D). destruct (sup1 q m); reflexivity.
+  Qed.
+
+  (* the external plug-in supports m exactly when a fresh manager resolves m (no fuel in the statement) *)
+  Lemma external_supports : ext_hidden oinit -> forall p m, kind p = External ->
+    sup1 p m = match get oinit m with Some _ => true | None => false end.
+  Proof.
+    intros Hh p m K. unfold Registry.sup1 at 1. unfold fuel_of. cbn [Registry.supports]. rewrite K.
+    unfold Registry.get. destruct (split_slash m) as [h [t|]] eqn:E.
+    - destruct (find_name oinit (lower h)) as [q|]; [|reflexivity].
+      apply split_slash_length in E. rewrite (sup1_fuel Hh q t) by lia.
+      destruct (sup1 q t); reflexivity.
+    - assert (Hm : h = m).
+      { destruct (split_slash_cases m) as [[_ Hs]|(P & m' & _ & _ & Hs)]; rewrite Hs in E; congruence. }
+      subst h. apply existsb_first_disc. intros n q Hin Hd. apply supports_nonext.
+      intros Kq. pose proof (Hh n q Hin Kq). congruence.
+  Qed.
+
+  (* ---- qualified lookup consults only the plug-in registered under lower P ------------- *)
   Lemma get_qualified r P m : no_slash P = true ->
     get r (P ++ String "/"%char m) =
       match find_name r (lower P) with
-      | Some p => if supports (fuel_of m) p m then Some p else None
+      | Some p => if sup1 p m then Some p else None
       | None => None
       end.
   Proof. intros H. unfold Registry.get. rewrite (split_slash_qualified P m H). reflexivity. Qed.
@@ -145,14 +350,24 @@ Section Proofs.
     get r (P ++ String "/"%char m) = get r (P' ++ String "/"%char m).
   Proof. intros H H' E. rewrite !get_qualified by assumption. rewrite E. reflexivity. Qed.
 
+  (* frame: two registries that bind lower P to the same plug-in answer "P/m" alike, whatever else they hold *)
+  Lemma get_qualified_frame r r' P m : no_slash P = true -> find_name r (lower P) = find_name r' (lower P) ->
+    get r (P ++ String "/"%char m) = get r' (P ++ String "/"%char m).
+  Proof. intros H E. rewrite !get_qualified by assumption. rewrite E. reflexivity. Qed.
+
+  Lemma consulted_qualified r P m : no_slash P = true ->
+    consulted oinit r (P ++ String "/"%char m) =
+      match find_name r (lower P) with Some p => [(pid p, m)] | None => [] end.
+  Proof. intros H. unfold consulted. rewrite (split_slash_qualified P m H). reflexivity. Qed.
+
   (* ---- bare lookup = first discoverable supporting plug-in in lookup order ---------- *)
   Lemma first_disc_spec r m p : first_disc r m = Some p <->
-    exists r1 n r2, r = r1 ++ (n, p) :: r2 /\ disc p = true /\ supports (fuel_of m) p m = true /\
-                    (forall n' p', In (n', p') r1 -> disc p' && supports (fuel_of m) p' m = false).
+    exists r1 n r2, r = r1 ++ (n, p) :: r2 /\ disc p = true /\ sup1 p m = true /\
+                    (forall n' p', In (n', p') r1 -> disc p' && sup1 p' m = false).
   Proof.
     induction r as [|[n q] t IH]; cbn [Registry.first_disc].
     - split; [discriminate|]. intros (r1 & ? & ? & H & _). destruct r1; discriminate.
-    - destruct (disc q && supports (fuel_of m) q m) eqn:E.
+    - destruct (disc q && sup1 q m) eqn:E.
       + split.
         * intros H. injection H as <-. apply andb_prop in E as [E1 E2].
           exists [], n, t. repeat split; auto. intros ? ? [].
@@ -167,6 +382,19 @@ Section Proofs.
           -- inversion H; subst. exists r1, n0, r2. repeat split; auto. intros; eapply Hpre; right; eauto.
   Qed.
 
+  Lemma first_disc_exists r m : (exists p, first_disc r m = Some p) <->
+    (exists n p, In (n, p) r /\ disc p = true /\ sup1 p m = true).
+  Proof.
+    induction r as [|[n q] t IH]; cbn [Registry.first_disc].
+    - split; [intros [? H]; discriminate | intros (? & ? & [] & _)].
+    - destruct (disc q && sup1 q m) eqn:E.
+      + apply andb_prop in E as [E1 E2]. split; [|eauto]. intros _. exists n, q. cbn. auto.
+      + rewrite IH. split.
+        * intros (n' & p & Hin & H). exists n', p. cbn. auto.
+        * intros (n' & p & [Hin|Hin] & Hd & Hs); [|eauto].
+          injection Hin as <- <-. rewrite Hd, Hs in E. discriminate.
+  Qed.
+
   Lemma get_bare r m : no_slash m = true -> get r m = first_disc r m.
   Proof. intros H. unfold Registry.get. rewrite (split_slash_bare m H). reflexivity. Qed.
 
@@ -176,7 +404,21 @@ Section Proofs.
     split; [exact Hd|]. exists n. apply in_or_app; right; left; reflexivity.
   Qed.
 
-  (* ---- is_supported iff get succeeds ------------------------------------------------ *)
+  Lemma consulted_bare_spec r m : Forall (fun e => snd e = m /\ exists n p, In (n, p) r /\ pid p = fst e /\ disc p = true)
+                                         (consulted_bare oinit r m).
+  Proof.
+    induction r as [|[n q] t IH]; cbn [consulted_bare]; [constructor|].
+    assert (IH' : Forall (fun e => snd e = m /\ exists n0 p, In (n0, p) ((n, q) :: t) /\ pid p = fst e /\ disc p = true)
+                         (consulted_bare oinit t m)).
+    { eapply Forall_impl; [|exact IH]. intros e [He (n0 & p & Hin & Hp)]. split; [exact He|].
+      exists n0, p. split; [right; exact Hin | exact Hp]. }
+    destruct (disc q) eqn:D; [|exact IH'].
+    constructor.
+    - split; [reflexivity|]. exists n, q. cbn. auto.
+    - destruct (sup1 q m); [constructor | exact IH'].
+  Qed.
+
+  (* ---- is_supported iff get succeeds; declarative characterisation --------------------- *)
   Lemma is_supported_iff_get r m :
     snd (step r (Sup m)) = ABool true <-> exists id, snd (step r (Get m)) = APlug id.
   Proof.
@@ -185,18 +427,86 @@ Section Proofs.
   Lemma is_supported_false_iff_error r m :
     snd (step r (Sup m)) = ABool false <-> snd (step r (Get m)) = AErr.
   Proof. cbn. destruct (get r m) as [p|]; split; try discriminate; reflexivity. Qed.
+  Lemma is_supported_total r m : exists b, snd (step r (Sup m)) = ABool b.
+  Proof. cbn. eauto. Qed.
+  Lemma get_total r m : (exists id, snd (step r (Get m)) = APlug id) \/ snd (step r (Get m)) = AErr.
+  Proof. cbn. destruct (get r m); eauto. Qed.
 
-  (* ---- isolation between managers ---------------------------------------------------- *)
+  Lemma sup_qualified_spec r P m : NoDup (names r) -> no_slash P = true ->
+    (snd (step r (Sup (P ++ String "/"%char m))) = ABool true <-> exists p, In (lower P, p) r /\ sup1 p m = true).
+  Proof.
+    intros Hnd HP. cbn. rewrite (get_qualified r P m HP). split.
+    - destruct (find_name r (lower P)) as [p|] eqn:E; [|discriminate].
+      destruct (sup1 p m) eqn:S1; [|discriminate]. intros _. exists p. split; [apply find_name_some; exact E | exact S1].
+    - intros (p & Hin & Hs). rewrite (find_name_in r (lower P) p Hnd Hin), Hs. reflexivity.
+  Qed.
+
+  Lemma sup_bare_spec r m : no_slash m = true ->
+    (snd (step r (Sup m)) = ABool true <-> exists n p, In (n, p) r /\ disc p = true /\ sup1 p m = true).
+  Proof.
+    intros Hm. cbn. rewrite (get_bare r m Hm). rewrite <- first_disc_exists.
+    destruct (first_disc r m) as [p|]; split; eauto; try discriminate. intros [? H]; discriminate.
+  Qed.
+
+  (* is_supported does not depend on the lookup order (only *which* plug-in get_plugin returns does) *)
+  Lemma sup_permutation r r' m : NoDup (names r) -> Permutation r r' ->
+    snd (step r (Sup m)) = snd (step r' (Sup m)).
+  Proof.
+    intros Hnd Hp.
+    assert (Hnd' : NoDup (names r')) by (eapply Permutation_NoDup; [apply Permutation_map; exact Hp | exact Hnd]).
+    assert (Hiff : snd (step r (Sup m)) = ABool true <-> snd (step r' (Sup m)) = ABool true).
+    { destruct (split_slash_cases m) as [[Hn _]|(P & m' & HP & -> & _)].
+      - rewrite !sup_bare_spec by exact Hn. split; intros (n & p & Hin & H); exists n, p; split; auto.
+        + eapply Permutation_in; eauto.
+        + eapply Permutation_in; [apply Permutation_sym|]; eauto.
+      - rewrite !sup_qualified_spec by assumption. split; intros (p & Hin & H); exists p; split; auto.
+        + eapply Permutation_in; eauto.
+        + eapply Permutation_in; [apply Permutation_sym|]; eauto. }
+    destruct (is_supported_total r m) as [b Hb], (is_supported_total r' m) as [b' Hb'].
+    rewrite Hb, Hb' in *. destruct b, b'; try reflexivity.
+    - destruct Hiff as [H _]. specialize (H eq_refl). discriminate.
+    - destruct Hiff as [_ H]. specialize (H eq_refl). discriminate.
+  Qed.
+
+  (* the external optimizer's constructor resolves the part after "external/" in a fresh manager: independent of
+     every registration made anywhere *)
+  Lemma fwd_independent r r' m : snd (step r (Fwd m)) = snd (step r' (Fwd m)).
+  Proof. reflexivity. Qed.
+  Lemma fwd_agrees_with_is_supported : ext_hidden oinit -> forall r p P m,
+    no_slash P = true -> find_name r (lower P) = Some p -> kind p = External ->
+    (snd (step r (Fwd (P ++ String "/"%char m))) = AOk <-> snd (step r (Sup (P ++ String "/"%char m))) = ABool true).
+  Proof.
+    intros Hh r p P m HP Hf K. cbn. rewrite (split_slash_qualified P m HP).
+    rewrite (get_qualified r P m HP), Hf, (external_supports Hh p m K).
+    destruct (get oinit m); split; intros; try discriminate; reflexivity.
+  Qed.
+End Proofs.
+
+(* ---- families of independent components (types in a manager, managers in a universe) ------- *)
+Fixpoint sel {A B} (j : nat) (ops : list (nat * A)) (a : list B) : list B :=
+  match ops, a with
+  | (i, _) :: t, x :: a' => if Nat.eqb i j then x :: sel j t a' else sel j t a'
+  | _, _ => []
+  end.
+Fixpoint proj {A} (j : nat) (ops : list (nat * A)) : list A :=
+  match ops with
+  | [] => []
+  | (i, o) :: t => if Nat.eqb i j then o :: proj j t else proj j t
+  end.
+
+Section FamilyProofs.
+  Context {St Op : Type}.
+  Variable stp : St -> Op -> St * ans.
+
+  (* a component run on its own *)
+  Fixpoint srun (s : St) (ops : list Op) : list ans * St :=
+    match ops with
+    | [] => ([], s)
+    | o :: t => let (s', a) := stp s o in let (l, sf) := srun s' t in (a :: l, sf)
+    end.
+
   Lemma upd_other {A} (u : list A) i j x : i <> j -> nth_error (upd u i x) j = nth_error u j.
-  Proof.
-    revert i j; induction u as [|h t IH]; intros [|i] [|j] Hij; cbn; auto; try lia.
-  Qed.
-
-  Lemma isolation u i j o : i <> j -> nth_error (fst (ustep init u (i, o))) j = nth_error u j.
-  Proof.
-    intros Hij. unfold ustep. cbn [fst snd]. destruct (nth_error u i) as [r|] eqn:E; [|reflexivity].
-    destruct (Registry.step init r o) as [r' a]. cbn [fst]. apply upd_other. exact Hij.
-  Qed.
+  Proof. revert i j; induction u as [|h t IH]; intros [|i] [|j] Hij; cbn; auto; try lia. Qed.
 
   Lemma upd_same {A} (u : list A) i x : nth_error u i = Some x -> upd u i x = u.
   Proof.
@@ -205,10 +515,163 @@ Section Proofs.
     - intros H. rewrite (IH _ H). reflexivity.
   Qed.
 
-  Lemma lookups_leave_universe u i o : (forall n p prio, o <> Add n p prio) -> fst (ustep init u (i, o)) = u.
+  Lemma upd_at {A} (u : list A) i x y : nth_error u i = Some y -> nth_error (upd u i x) i = Some x.
+  Proof. revert i; induction u as [|h t IH]; intros [|i]; cbn; try discriminate; auto. Qed.
+
+  Lemma fstep_other l i j o : i <> j -> nth_error (fst (fstep stp l (i, o))) j = nth_error l j.
   Proof.
-    intros H. unfold ustep. cbn [fst snd]. destruct (nth_error u i) as [r|] eqn:E; [|reflexivity].
-    pose proof (lookups_pure r o H) as Hp. destruct (Registry.step init r o) as [r' a]. cbn [fst] in *. subst r'.
-    apply upd_same. exact E.
+    intros Hij. unfold fstep. cbn [fst snd]. destruct (nth_error l i) as [s|]; [|reflexivity].
+    destruct (stp s o) as [s' a]. cbn [fst]. apply upd_other. exact Hij.
   Qed.
-End Proofs.
+
+  Lemma fstep_same l i o s : nth_error l i = Some s ->
+    nth_error (fst (fstep stp l (i, o))) i = Some (fst (stp s o)) /\ snd (fstep stp l (i, o)) = snd (stp s o).
+  Proof.
+    intros H. unfold fstep. cbn [fst snd]. rewrite H. destruct (stp s o) as [s' a]. cbn [fst snd].
+    split; [eapply upd_at; eauto | reflexivity].
+  Qed.
+
+  Lemma fstep_noop l i o : (forall s, nth_error l i = Some s -> fst (stp s o) = s) -> fst (fstep stp l (i, o)) = l.
+  Proof.
+    intros H. unfold fstep. cbn [fst snd]. destruct (nth_error l i) as [s|] eqn:E; [|reflexivity].
+    specialize (H s eq_refl). destruct (stp s o) as [s' a]. cbn [fst] in *. subst s'. apply upd_same. exact E.
+  Qed.
+
+  Lemma fstep_error_noop :
+    (forall s o, snd (stp s o) = AErr \/ snd (stp s o) = ABad -> fst (stp s o) = s) ->
+    forall l io, snd (fstep stp l io) = AErr \/ snd (fstep stp l io) = ABad -> fst (fstep stp l io) = l.
+  Proof.
+    intros Hs l [i o] H. apply fstep_noop. intros s E. apply Hs.
+    destruct (fstep_same l i o s E) as [_ Ha]. rewrite <- Ha. exact H.
+  Qed.
+
+  Lemma fstep_inv (P : St -> Prop) : (forall s o, P s -> P (fst (stp s o))) ->
+    forall l io, Forall P l -> Forall P (fst (fstep stp l io)).
+  Proof.
+    intros Hs l [i o] Hl. unfold fstep. cbn [fst snd]. destruct (nth_error l i) as [s|] eqn:E; [|exact Hl].
+    assert (Ps : P s) by (rewrite Forall_forall in Hl; apply Hl; eapply nth_error_In; eauto).
+    specialize (Hs s o Ps). destruct (stp s o) as [s' a]. cbn [fst] in *.
+    clear E Ps. revert i. induction Hl as [|h t Hh Ht IH]; intros [|i]; cbn; constructor; auto.
+  Qed.
+
+  Lemma frun_cons l o t : frun stp l (o :: t) =
+    (snd (fstep stp l o) :: fst (frun stp (fst (fstep stp l o)) t), snd (frun stp (fst (fstep stp l o)) t)).
+  Proof. cbn [frun]. destruct (fstep stp l o) as [l' a]. cbn. destruct (frun stp l' t); reflexivity. Qed.
+
+  Lemma srun_cons s o t : srun s (o :: t) =
+    (snd (stp s o) :: fst (srun (fst (stp s o)) t), snd (srun (fst (stp s o)) t)).
+  Proof. cbn [srun]. destruct (stp s o) as [s' a]. cbn. destruct (srun s' t); reflexivity. Qed.
+
+  Lemma frun_inv (P : St -> Prop) : (forall s o, P s -> P (fst (stp s o))) ->
+    forall ops l, Forall P l -> Forall P (snd (frun stp l ops)).
+  Proof.
+    intros Hs. induction ops as [|o t IH]; intros l Hl; [exact Hl|].
+    rewrite frun_cons. cbn [snd]. apply IH. apply fstep_inv; assumption.
+  Qed.
+
+  (* an operation that is a no-op can be erased from any sequence: no later answer, no final state changes *)
+  Lemma frun_erase l o t : fst (fstep stp l o) = l ->
+    frun stp l (o :: t) = (snd (fstep stp l o) :: fst (frun stp l t), snd (frun stp l t)).
+  Proof. intros H. rewrite frun_cons, H. reflexivity. Qed.
+
+  (* component j of an interleaved run behaves exactly as if it had been run alone on its own operations *)
+  Lemma frun_project ops : forall l j s, nth_error l j = Some s ->
+    sel j ops (fst (frun stp l ops)) = fst (srun s (proj j ops)) /\
+    nth_error (snd (frun stp l ops)) j = Some (snd (srun s (proj j ops))).
+  Proof.
+    induction ops as [|[i o] t IH]; intros l j s H.
+    - cbn. auto.
+    - rewrite frun_cons. cbn [fst snd sel proj]. destruct (Nat.eqb_spec i j) as [->|Hij].
+      + destruct (fstep_same l j o s H) as [Hn Ha]. rewrite srun_cons. cbn [fst snd].
+        destruct (IH _ j _ Hn) as [IH1 IH2]. rewrite IH1, IH2, Ha. auto.
+      + apply IH. rewrite fstep_other by exact Hij. exact H.
+  Qed.
+End FamilyProofs.
+
+Section Universe.
+  Variable oinit : registry.
+
+  Lemma run_is_srun ops : forall r, run oinit r ops = srun (step oinit) r ops.
+  Proof.
+    induction ops as [|o t IH]; intros r; [reflexivity|].
+    cbn [Registry.run srun]. destruct (step oinit r o) as [r' a]. rewrite IH. reflexivity.
+  Qed.
+  Lemma mrun_is_srun ops : forall m, mrun oinit m ops = srun (mstep oinit) m ops.
+  Proof.
+    induction ops as [|o t IH]; intros m; [reflexivity|].
+    unfold mrun in *. cbn [frun srun]. fold (mstep oinit m o). destruct (mstep oinit m o) as [m' a].
+    rewrite IH. reflexivity.
+  Qed.
+
+  Definition wf_manager (m : manager) : Prop := Forall (fun r => NoDup (names r)) m.
+  Definition wf_universe (u : list manager) : Prop := Forall wf_manager u.
+
+  Lemma mstep_wf m to : wf_manager m -> wf_manager (fst (mstep oinit m to)).
+  Proof. apply fstep_inv. intros s o. apply step_names_nodup. Qed.
+
+  Lemma urun_wf ops u : wf_universe u -> wf_universe (snd (urun oinit u ops)).
+  Proof. apply frun_inv. intros m to. apply mstep_wf. Qed.
+
+  Lemma mstep_error_noop m to :
+    snd (mstep oinit m to) = AErr \/ snd (mstep oinit m to) = ABad -> fst (mstep oinit m to) = m.
+  Proof. apply fstep_error_noop. apply step_error_noop. Qed.
+
+  Lemma ustep_error_noop u io :
+    snd (ustep oinit u io) = AErr \/ snd (ustep oinit u io) = ABad -> fst (ustep oinit u io) = u.
+  Proof. apply fstep_error_noop. apply mstep_error_noop. Qed.
+
+  Lemma ustep_lookup_noop u i t o : (forall n p prio, o <> Add n p prio) -> fst (ustep oinit u (i, (t, o))) = u.
+  Proof.
+    intros H. apply fstep_noop. intros m _. apply fstep_noop. intros r _. apply lookups_pure. exact H.
+  Qed.
+
+  Lemma urun_erase_rejected u io t :
+    snd (ustep oinit u io) = AErr \/ snd (ustep oinit u io) = ABad ->
+    urun oinit u (io :: t) = (snd (ustep oinit u io) :: fst (urun oinit u t), snd (urun oinit u t)).
+  Proof. intros H. apply frun_erase. apply ustep_error_noop. exact H. Qed.
+
+  Lemma urun_erase_lookup u i ty o t : (forall n p prio, o <> Add n p prio) ->
+    urun oinit u ((i, (ty, o)) :: t) =
+      (snd (ustep oinit u (i, (ty, o))) :: fst (urun oinit u t), snd (urun oinit u t)).
+  Proof. intros H. apply frun_erase. apply ustep_lookup_noop. exact H. Qed.
+
+  (* managers: isolation of states and of answers over whole interleaved sequences *)
+  Lemma manager_isolation u i j to : i <> j -> nth_error (fst (ustep oinit u (i, to))) j = nth_error u j.
+  Proof. apply fstep_other. Qed.
+
+  Lemma manager_isolation_trace ops u j m : nth_error u j = Some m ->
+    sel j ops (fst (urun oinit u ops)) = fst (mrun oinit m (proj j ops)) /\
+    nth_error (snd (urun oinit u ops)) j = Some (snd (mrun oinit m (proj j ops))).
+  Proof. intros H. rewrite mrun_is_srun. apply frun_project. exact H. Qed.
+
+  (* plug-in types inside one manager *)
+  Lemma type_isolation m t t' o : t <> t' -> nth_error (fst (mstep oinit m (t, o))) t' = nth_error m t'.
+  Proof. apply fstep_other. Qed.
+
+  Lemma type_isolation_trace ops m t r : nth_error m t = Some r ->
+    sel t ops (fst (mrun oinit m ops)) = fst (run oinit r (proj t ops)) /\
+    nth_error (snd (mrun oinit m ops)) t = Some (snd (run oinit r (proj t ops))).
+  Proof. intros H. rewrite run_is_srun. apply frun_project. exact H. Qed.
+
+  (* is_supported <=> get_plugin succeeds, in any state of any manager of any universe *)
+  Lemma universe_sup_iff_get u i t m :
+    snd (ustep oinit u (i, (t, Sup m))) = ABool true <-> exists id, snd (ustep oinit u (i, (t, Get m))) = APlug id.
+  Proof.
+    unfold ustep, fstep. cbn [fst snd]. destruct (nth_error u i) as [mg|].
+    - unfold mstep, fstep. cbn [fst snd]. destruct (nth_error mg t) as [r|].
+      + pose proof (is_supported_iff_get oinit r m) as H.
+        destruct (step oinit r (Sup m)) as [r1 a1], (step oinit r (Get m)) as [r2 a2]. cbn [fst snd] in *. exact H.
+      + cbn. split; [discriminate | intros [? H]; discriminate].
+    - cbn. split; [discriminate | intros [? H]; discriminate].
+  Qed.
+
+  Lemma universe_sup_false_iff_error u i t m : (exists r, nth_error u i = Some r /\ t < List.length r) ->
+    (snd (ustep oinit u (i, (t, Sup m))) = ABool false <-> snd (ustep oinit u (i, (t, Get m))) = AErr).
+  Proof.
+    intros (mg & Hm & Ht). unfold ustep, fstep. cbn [fst snd]. unfold manager in *. rewrite Hm.
+    unfold mstep, fstep. cbn [fst snd]. destruct (nth_error mg t) as [r|] eqn:E.
+    - pose proof (is_supported_false_iff_error oinit r m) as H.
+      destruct (step oinit r (Sup m)) as [r1 a1], (step oinit r (Get m)) as [r2 a2]. cbn [fst snd] in *. exact H.
+    - apply nth_error_None in E. lia.
+  Qed.
+End Universe.
